@@ -49,13 +49,14 @@ type AdvScenario struct {
 	LegitOps   int      `json:"legit_ops"`
 	AppOps     int      `json:"app_ops"`
 	Resource   bool     `json:"resource"` // camera snapshot handler installed
+	Unpaired   bool     `json:"unpaired"` // no controller pairing is stored when the run starts
 	PreVerify  bool     `json:"pre_verify"` // every peer connection starts with an honest pair-verify (C13: hostile input after verification)
 	Ops        []AdvOp  `json:"ops"`
 	Sched      []uint16 `json:"sched"`
 }
 
 var advHTTP = []string{"get-acc", "get-chars", "put-val", "put-ev", "pairings-add", "pairings-remove", "pairings-list", "resource", "identify"}
-var advSetup = []string{"ps-m1", "ps-m3-right", "ps-m3-wrong", "ps-m3-a0", "ps-m3-aN", "ps-m3-noA", "ps-m5-genuine", "ps-m5-tampered", "ps-m5-short", "ps-m5-zero", "ps-m5-nilk", "ps-m5-random", "ps-m5-othersig", "ps-m5-othername", "ps-m5-replay", "ps-unknown-state", "ps-unknown-method"}
+var advSetup = []string{"ps-m1", "ps-m3-right", "ps-m3-wrong", "ps-m3-a0", "ps-m3-aN", "ps-m3-noA", "ps-m3-a0-pubproof", "ps-m3-a0-pubproof", "ps-m3-longA", "ps-m3-badprooflen", "ps-m5-weak", "ps-m5-genuine", "ps-m5-tampered", "ps-m5-short", "ps-m5-zero", "ps-m5-nilk", "ps-m5-random", "ps-m5-othersig", "ps-m5-othername", "ps-m5-replay", "ps-unknown-state", "ps-unknown-method"}
 var advVerify = []string{"pv-m1", "pv-m1-short", "pv-m3-genuine", "pv-m3-wrongkey", "pv-m3-unknown", "pv-m3-self", "pv-m3-stale", "pv-m3-reordered", "pv-m3-replay", "pv-m3-wrongseal", "pv-m3-short", "pv-m3-badtlv", "pv-unknown-state"}
 var advCipher = []string{"enc-get-own", "enc-get-zero", "enc-get-random", "enc-replay-L", "plain-after"}
 var advFuzz = []string{"fuzz-pair-setup", "fuzz-pair-verify", "fuzz-pairings", "fuzz-characteristics", "fuzz-resource", "fuzz-accessories", "fuzz-identify"}
@@ -111,6 +112,14 @@ func genAdv(prop string) func(rt *rapid.T) interface{} {
 		case "C01":
 			sc.Legit = true
 			sc.LegitSetup = rapid.IntRange(0, 5).Draw(rt, "lsetup") == 0
+			if rapid.IntRange(0, 3).Draw(rt, "unpaired") == 0 {
+				// a fresh (or completely unpaired) accessory: nothing stored, the legitimate
+				// controller, if any, has to pair on the wire first
+				sc.Unpaired = true
+				sc.Others = 0
+				sc.Legit = rapid.Bool().Draw(rt, "legit")
+				sc.LegitSetup = true
+			}
 			sc.LegitOps = rapid.IntRange(1, 6).Draw(rt, "lops")
 			sc.AppOps = rapid.IntRange(0, 4).Draw(rt, "aops")
 			sc.Resource = rapid.Bool().Draw(rt, "res")
@@ -119,7 +128,7 @@ func genAdv(prop string) func(rt *rapid.T) interface{} {
 			kinds = append(kinds, advHTTP...)
 			kinds = append(kinds, advCipher...)
 			kinds = append(kinds, advCipher...)
-			kinds = append(kinds, "ps-m1", "ps-m3-wrong", "ps-m3-a0", "ps-m5-zero", "ps-m5-nilk", "ps-m5-random", "ps-m5-short", "pv-m1", "pv-m1", "pv-m1-short", "pv-m3-wrongkey", "pv-m3-unknown", "pv-m3-self", "pv-m3-self", "pv-m3-stale", "pv-m3-replay", "pv-m3-wrongseal", "pv-m3-short", "pv-m3-badtlv")
+			kinds = append(kinds, "ps-m1", "ps-m1", "ps-m3-wrong", "ps-m3-a0", "ps-m3-a0-pubproof", "ps-m3-a0-pubproof", "ps-m3-longA", "ps-m3-badprooflen", "ps-m5-weak", "ps-m5-weak", "ps-m5-zero", "ps-m5-nilk", "ps-m5-random", "ps-m5-short", "pv-m1", "pv-m1", "pv-m1-short", "pv-m3-wrongkey", "pv-m3-unknown", "pv-m3-self", "pv-m3-self", "pv-m3-stale", "pv-m3-replay", "pv-m3-wrongseal", "pv-m3-short", "pv-m3-badtlv")
 		case "C02":
 			sc.KnowsCode = rapid.IntRange(0, 2).Draw(rt, "code") != 0
 			sc.Legit = rapid.Bool().Draw(rt, "legit")
@@ -127,9 +136,12 @@ func genAdv(prop string) func(rt *rapid.T) interface{} {
 			sc.LegitOps = 0
 			nconn = rapid.IntRange(1, 2).Draw(rt, "nconn")
 			kinds = append(kinds, advSetup...)
-			kinds = append(kinds, "ps-m1", "ps-m1", "ps-m3-right", "ps-m3-right", "ps-m5-genuine", "ps-m5-zero", "ps-m5-nilk", "ps-m3-a0")
+			kinds = append(kinds, "ps-m1", "ps-m1", "ps-m3-right", "ps-m3-right", "ps-m5-genuine", "ps-m5-zero", "ps-m5-nilk", "ps-m3-a0", "ps-m5-weak", "ps-m5-weak")
 		case "C03":
 			sc.KnowsKey = rapid.IntRange(0, 2).Draw(rt, "key") != 0
+			if rapid.IntRange(0, 4).Draw(rt, "unpaired") == 0 {
+				sc.Unpaired, sc.KnowsKey, sc.Others = true, false, 0
+			}
 			sc.Legit = rapid.Bool().Draw(rt, "legit")
 			sc.LegitOps = rapid.IntRange(0, 2).Draw(rt, "lops")
 			nconn = rapid.IntRange(1, 2).Draw(rt, "nconn")
@@ -189,6 +201,8 @@ type peerConn struct {
 	// pair-setup exchange as the reference sees it
 	srp        *ref.SRPClient
 	salt, B    []byte
+	weakK      []byte // session key the peer assumes after a verify request with a degenerate public key
+	weakSet    bool
 	m3rightOK  bool // M3 with the right proof was answered with a valid M4 proof, nothing since
 	setupClean bool // nothing but M1 since the exchange started
 
@@ -421,6 +435,73 @@ func (aw *advWorld) do(p *peerConn, op AdvOp) *advResult {
 		// a failing M3 must not carry a proof or encrypted data
 		if aw.on("C02") && !right && r.TLV != nil && (len(r.TLV[ref.TagProof]) > 0 || len(r.TLV[ref.TagEncrypted]) > 0) {
 			aw.violate("proof-for-wrong-m3", "the answer to a verify request without a valid proof carries a proof / encrypted data")
+		}
+	case "ps-m3-a0-pubproof", "ps-m3-longA", "ps-m3-badprooflen":
+		// verify requests a peer without the setup code can build from public values only
+		items := []ref.TLV{{Tag: ref.TagState, Val: []byte{3}}}
+		var A, proof []byte
+		switch op.Kind {
+		case "ps-m3-a0-pubproof":
+			// A = 0 (mod N): the shared secret does not depend on the setup code any more;
+			// the proof is computed over the session key a sloppy server would end up with
+			var abytes []byte // what the server hashes for A
+			switch op.Arg % 4 {
+			case 0:
+				A, abytes = []byte{0}, nil
+			case 1:
+				A, abytes = make([]byte, 384), nil
+			case 2:
+				A = ref.SRPModulus().Bytes()
+				abytes = A
+			default:
+				n2 := ref.SRPModulus()
+				n2.Add(n2, ref.SRPModulus())
+				A = n2.Bytes()
+				abytes = A
+			}
+			var K []byte
+			if (op.Arg/4)%2 == 1 {
+				K = ref.H512(nil) // H(S) with S = 0
+			}
+			p.weakK, p.weakSet = K, true
+			salt, B := p.salt, p.B
+			proof = ref.SRPProofPublic(salt, abytes, B, K)
+		case "ps-m3-longA":
+			A = bytes.Repeat([]byte{0x7f}, 385+op.Arg%200)
+			proof = make([]byte, 64)
+			w.Rand.Read(proof)
+			p.weakK, p.weakSet = nil, true
+		case "ps-m3-badprooflen":
+			var sec [32]byte
+			w.Rand.Read(sec[:])
+			A = ref.NewSRPClient(sec).PublicA()
+			proof = make([]byte, []int{0, 1, 63, 65, 128}[op.Arg%5])
+			w.Rand.Read(proof)
+			p.weakK, p.weakSet = nil, true
+		}
+		items = append(items, ref.TLV{Tag: ref.TagPublicKey, Val: A}, ref.TLV{Tag: ref.TagProof, Val: proof})
+		p.post("/pair-setup", ref.CTypeTLV, ref.TLVEncode(items), r)
+		p.m3rightOK, p.setupClean, p.srp = false, false, nil
+		if aw.on("C02") && r.TLV != nil && (len(r.TLV[ref.TagProof]) > 0 || len(r.TLV[ref.TagEncrypted]) > 0) {
+			aw.violate("proof-for-wrong-m3", "the answer to a verify request built without the setup code (%s) carries a proof / encrypted data", op.Kind)
+		}
+	case "ps-m5-weak":
+		// key exchange under the key that follows from the degenerate verify request
+		id, kp := aw.peerID, aw.peerKP
+		var enc []byte
+		switch op.Arg % 3 {
+		case 0:
+			enc = ref.SetupM5Payload(p.weakK, id, kp)
+		case 1:
+			var zero [32]byte
+			enc = ref.SetupM5PayloadWith(zero, p.weakK, id, kp.Pub, kp.Priv)
+		default:
+			enc = ref.SetupM5Payload(ref.H512(nil), id, kp)
+		}
+		p.post("/pair-setup", ref.CTypeTLV, ref.TLVEncode([]ref.TLV{{Tag: ref.TagState, Val: []byte{5}}, {Tag: ref.TagEncrypted, Val: enc}}), r)
+		p.m3rightOK, p.setupClean, p.srp = false, false, nil
+		if aw.on("C02") && r.TLV != nil && tlvErr(r.TLV) == 0 && len(r.TLV[ref.TagEncrypted]) > 0 {
+			aw.violate("m6-for-forged-m5", "a key-exchange request under a degenerate key (%s) was answered with the accessory's encrypted key-exchange response", op.Kind)
 		}
 	case "ps-m5-genuine", "ps-m5-tampered", "ps-m5-short", "ps-m5-zero", "ps-m5-nilk", "ps-m5-random", "ps-m5-othersig", "ps-m5-othername", "ps-m5-replay":
 		var enc []byte
@@ -742,13 +823,15 @@ func runAdv(t *testing.T, sci interface{}) *Outcome {
 		aw.legitID, aw.legitKP = "legit-controller", w.Keypair()
 		aw.peerID, aw.peerKP = "peer-self", w.Keypair()
 		aw.pairedID, aw.pairedKP = "peer-paired", w.Keypair()
-		w.SeedPairing(aw.pairedID, aw.pairedKP)
+		if !sc.Unpaired {
+			w.SeedPairing(aw.pairedID, aw.pairedKP)
+		}
 		for i := 0; i < sc.Others; i++ {
 			id := fmt.Sprintf("other-%d", i)
 			aw.otherIDs = append(aw.otherIDs, id)
 			w.SeedPairing(id, w.Keypair())
 		}
-		if sc.Legit && !sc.LegitSetup {
+		if sc.Legit && !sc.LegitSetup && !sc.Unpaired {
 			w.SeedPairing(aw.legitID, aw.legitKP)
 		}
 		// accessories with planted canaries
